@@ -578,7 +578,7 @@ def c06(m, run):
                                 for k, v in call.res.items():
                                     agg.setdefault(k, v)
                                 return first, trace
-                            explore(call2, 64)
+                            explore(call2, 64, stop_on_failure=True)
                             ts.add((p, tuple(ranks), r, s, num), agg.get('SS1'))
                             tc.add((p, tuple(ranks), r, s, num), agg.get('SK3'))
                             tv.add((p, tuple(ranks), r, s, num), agg.get('RM1'))
@@ -654,7 +654,9 @@ def c05(m, run):
                             for k_, v_ in res.items():
                                 agg.setdefault(k_, v_)
                             return (res.get('KR1') or res.get('SK3')), sk.trace
-                        explore(call, 256)
+                        if sum(len(v_) for v_ in tk.bad.values()) + sum(len(v_) for v_ in tc.bad.values()) > 12:
+                            continue            # more than a dozen failing cases are recorded already: the verdict is settled, the rest of the box is skipped
+                        explore(call, 256, stop_on_failure=True)
                         tk.add((p, tuple(ranks), density, extra), agg.get('KR1'))
                         tc.add((p, tuple(ranks), density, extra), agg.get('SK3'))
         finish(tk, 'geomdl/helpers.py in helpers.knot_refinement')
